@@ -7,7 +7,9 @@ import re
 import subprocess
 import time
 
-LEAN_DIR = os.path.abspath(os.path.join(os.path.dirname(__file__), '..', '..', 'lean'))
+# VERIF_LEAN_DIR: a private build directory (symlinked sources + own .lake) so that several checks can build in
+# parallel while slices are being developed (tools/private_lean.sh); registered commands use /verif/lean itself
+LEAN_DIR = os.path.abspath(os.environ.get('VERIF_LEAN_DIR') or os.path.join(os.path.dirname(__file__), '..', '..', 'lean'))
 LOCK = os.path.join(LEAN_DIR, '.lake.lock')
 STD_AXIOMS = {'propext', 'Classical.choice', 'Quot.sound'}
 FORBIDDEN = re.compile(r'\b(sorry|admit|native_decide|bv_decide|implemented_by|unsafe)\b|^\s*axiom\s|maxHeartbeats\s+0\b')
